@@ -1224,7 +1224,7 @@ impl Scenario for C05 {
         }
     }
     fn watchdog_secs(&self) -> u64 {
-        60
+        300
     }
 
     fn generate(&self, rng: &mut Rng, _tier: Tier, index: u64) -> Case {
